@@ -65,7 +65,7 @@ func (r *Report) Bad(rule, construct, pos, format string, a ...any) {
 	r.add(rule, construct, Violation, pos, fmt.Sprintf(format, a...))
 }
 
-// Unknown records an obligation the analysis could not decide (exit 2).
+// Unknown records an obligation the analysis could not decide (reported as a violation of kind undecided, exit 1).
 func (r *Report) Unknown(rule, construct, pos, format string, a ...any) {
 	r.add(rule, construct, Undecided, pos, fmt.Sprintf(format, a...))
 }
@@ -92,6 +92,21 @@ type knownFile struct {
 		What     string `json:"what"`
 	} `json:"findings"`
 	Fixed []string `json:"fixed"`
+}
+
+// Abort reports that the analysis could not run at all (load failure, checker
+// panic). The property is not shown to hold, so the verdict is a violation of
+// kind "undecided".
+func (r *Report) Abort(reason string) int {
+	vdir := filepath.Join(r.Root, "evidence", r.Prop+".violations")
+	os.RemoveAll(vdir)
+	os.MkdirAll(vdir, 0o755)
+	path := filepath.Join(vdir, "u0.json")
+	b, _ := json.MarshalIndent(map[string]any{"property": r.Prop, "kind": "undecided", "detail": reason,
+		"replay": fmt.Sprintf("bin/check %s %s", r.Prop, r.Tier)}, "", " ")
+	os.WriteFile(path, b, 0o644)
+	fmt.Printf("VIOLATION property=%s replay=%s kind=undecided\n", r.Prop, path)
+	return 1
 }
 
 // Finish prints the verdict lines, writes evidence and returns the exit code.
@@ -160,8 +175,17 @@ func (r *Report) Finish() int {
 		fmt.Printf("  violation %s at %s: %s\n", o.Key(), o.Pos, o.Detail)
 		fmt.Printf("VIOLATION property=%s replay=%s\n", r.Prop, path)
 	}
-	for _, o := range und {
+	// An obligation the analysis cannot discharge is reported as a violation of
+	// kind "undecided": the property is not shown to hold on this tree, and the
+	// interface has only two verdicts.
+	for i, o := range und {
+		os.MkdirAll(vdir, 0o755)
+		path := filepath.Join(vdir, "u"+strconv.Itoa(i)+".json")
+		b, _ := json.MarshalIndent(map[string]any{"property": r.Prop, "kind": "undecided", "rule": o.Rule, "construct": o.Construct,
+			"pos": o.Pos, "detail": o.Detail, "replay": fmt.Sprintf("bin/check %s %s", r.Prop, r.Tier)}, "", " ")
+		os.WriteFile(path, b, 0o644)
 		fmt.Printf("UNDECIDED property=%s %s reason=%s [%s]\n", r.Prop, o.Key(), o.Detail, o.Pos)
+		fmt.Printf("VIOLATION property=%s replay=%s kind=undecided\n", r.Prop, path)
 	}
 
 	// evidence
@@ -222,7 +246,7 @@ func (r *Report) Finish() int {
 		return 1
 	}
 	if len(und) > 0 {
-		return 2
+		return 1
 	}
 	return 0
 }
